@@ -54,6 +54,7 @@ type svcOpts struct {
 	ForceNamedPointer bool
 	AvoidNamedPointer bool
 	ForceAutoImport   bool
+	ForceDynStruct    bool
 	AvoidAutoImport   bool
 }
 
@@ -147,6 +148,18 @@ func genService(r *rand.Rand, k int, o svcOpts) svcSpec {
 		digestArgs += ", strings.Join(nl, \"+\")"
 	}
 
+	// per-request values kept in a DYNAMIC struct made with the empty initializer {} (language extension) whose
+	// fields are added afterwards; one field only on some requests; a nested {} ; a copy taken with := before
+	// the fields are added (the copy must stay empty of this and of every other request's values)
+	dyn := r.Intn(3) != 0 || o.ForceDynStruct
+	if dyn {
+		shape = append(shape, "dynamic-struct-empty-initializer")
+		b.WriteString("    dr := {}\n    dcopy := dr\n    dr.user = user\n    dr.item = item\n    dr.n = n\n    if n % 2 == 0 {\n        dr.opt = tag\n    }\n")
+		b.WriteString("    dr.inner = {}\n    dr.inner.tag = tag\n    if n % 3 == 0 {\n        dr.inner.third = hdr\n    }\n")
+		digestFmt += " dyn=%s"
+		digestArgs += ", dynText"
+	}
+
 	// closures over handler locals created with := ; they are called only after the computation below
 	closures := r.Intn(3) != 0
 	if closures {
@@ -179,6 +192,11 @@ func genService(r *rand.Rand, k int, o svcOpts) svcSpec {
 			shape = append(shape, "struct")
 			fmt.Fprintf(&b, "    r%d := record{tag: strings.ToUpper(tag), n: acc + n, user: user}\n    acc = acc + len(describe(r%d))\n", st, st)
 		}
+	}
+
+	if dyn {
+		// rendered after the computation: the text lists whatever fields the structs hold by then
+		b.WriteString("    dynText := strings.ReplaceAll(fmt.Sprintf(\"%v|%v\", dr, dcopy), \" \", \"\")\n")
 	}
 
 	if closures {
@@ -234,6 +252,8 @@ type c42Rec struct {
 	Services   []string      `json:"services,omitempty"`
 	CacheMax   int           `json:"cache_max,omitempty"`
 	Flushed    bool          `json:"flushed,omitempty"`
+	Cold       bool          `json:"cold,omitempty"` // cache flushed, CONCURRENT burst first (no serial warm-up), serial reference afterwards
+	ForeignAny int           `json:"foreign_any,omitempty"`
 	Density    int64         `json:"density,omitempty"`
 	Opt        int           `json:"opt"` // ego.compiler.optimize for this batch (services are recompiled when it changes)
 	Seed       uint64        `json:"seed,omitempty"`
@@ -266,6 +286,7 @@ type c42Job struct {
 	// NoEviction: keep the cache limit at or above the number of services of the batch (main stream
 	// while the route first-use lock finding is listed as known). EvictionProbe: the directed probe
 	// for that finding: three services, cache limit 1, every batch.
+	ColdProbe     bool `json:"cold_probe,omitempty"` // every batch is a cold concurrent burst
 	NoEviction    bool `json:"no_eviction,omitempty"`
 	EvictionProbe bool `json:"eviction_probe,omitempty"`
 }
@@ -430,50 +451,70 @@ func TestC42Worker(t *testing.T) {
 			lastOpt = rec.Opt
 		}
 
-		// serial pass = reference
-		bytecode.VerifYieldDensity.Store(0)
-
 		serial := make([]c42Resp, len(reqs))
-		for i, q := range reqs {
-			serial[i] = serve(f, q)
-			rec.Status[serial[i].Status]++
+		conc := make([]c42Resp, len(reqs))
 
-			if os.Getenv("CONC_C42_DEBUG") != "" && i < 3 {
-				fmt.Printf("DEBUG %+v\n -> %+v\n", q, serial[i])
+		// serial pass = reference
+		serialPass := func() {
+			bytecode.VerifYieldDensity.Store(0)
+
+			for i, q := range reqs {
+				serial[i] = serve(f, q)
+				rec.Status[serial[i].Status]++
+
+				if os.Getenv("CONC_C42_DEBUG") != "" && i < 3 {
+					fmt.Printf("DEBUG %+v\n -> %+v\n", q, serial[i])
+				}
 			}
 		}
 
-		if rec.Flushed {
-			services.FlushServiceCache()
-		}
+		var y0, i0 int64
 
 		// concurrent pass with yield injection
-		y0, i0 := bytecode.VerifYields.Load(), instrCount()
-		bytecode.VerifYieldSeed.Store(rec.Seed)
-		bytecode.VerifYieldDensity.Store(rec.Density)
+		concPass := func() {
+			y0, i0 = bytecode.VerifYields.Load(), instrCount()
+			bytecode.VerifYieldSeed.Store(rec.Seed)
+			bytecode.VerifYieldDensity.Store(rec.Density)
 
-		conc := make([]c42Resp, len(reqs))
+			var (
+				wg    sync.WaitGroup
+				start = make(chan struct{})
+			)
 
-		var (
-			wg    sync.WaitGroup
-			start = make(chan struct{})
-		)
+			for i := range reqs {
+				wg.Add(1)
 
-		for i := range reqs {
-			wg.Add(1)
+				go func(i int) {
+					defer wg.Done()
+					<-start
+					conc[i] = serve(f, reqs[i])
+				}(i)
+			}
 
-			go func(i int) {
-				defer wg.Done()
-				<-start
-				conc[i] = serve(f, reqs[i])
-			}(i)
+			close(start)
+			wg.Wait()
+			bytecode.VerifYieldDensity.Store(0)
+
+			rec.Yields, rec.Instr = bytecode.VerifYields.Load()-y0, instrCount()-i0
 		}
 
-		close(start)
-		wg.Wait()
-		bytecode.VerifYieldDensity.Store(0)
+		rec.Cold = r.Intn(2) == 0 || job.ColdProbe
 
-		rec.Yields, rec.Instr = bytecode.VerifYields.Load()-y0, instrCount()-i0
+		if rec.Cold {
+			// the services' first executions after compilation are the concurrent burst itself
+			services.FlushServiceCache()
+			concPass()
+			serialPass()
+		} else {
+			serialPass()
+
+			if rec.Flushed {
+				services.FlushServiceCache()
+			}
+
+			concPass()
+		}
+
 		rec.CacheSizes = append(rec.CacheSizes, len(services.ServiceCache))
 
 		tags := map[string]bool{}
@@ -483,6 +524,23 @@ func TestC42Worker(t *testing.T) {
 
 		for i, q := range reqs {
 			if conc[i].same(serial[i]) {
+				foreign := []string{}
+
+				for tg := range tags {
+					if tg != q.Tag && (strings.Contains(conc[i].Body, tg) || strings.Contains(conc[i].Hdr, tg)) {
+						foreign = append(foreign, tg)
+					}
+				}
+
+				if len(foreign) > 0 {
+					// serial and concurrent answers agree, and both carry another request's value
+					sort.Strings(foreign)
+					rec.ForeignAny++
+					rec.Mismatch = append(rec.Mismatch, c42Mismatch{Req: q, Serial: serial[i], Concurrent: conc[i], Foreign: foreign})
+
+					continue
+				}
+
 				if rec.Sample == nil && i == int(rec.Seed%uint64(len(reqs))) {
 					rec.Sample = &c42Mismatch{Req: q, Serial: serial[i], Concurrent: conc[i]}
 				}
@@ -643,6 +701,20 @@ func TestC42(t *testing.T) {
 			}
 		}
 
+		// always-run directed probe: dynamic {} structs, every batch a cold concurrent burst
+		{
+			sr := vh.Rand("c42-probe-dyn/services")
+			job := c42Job{Stream: "c42-probe-dyn", Batches: 2, ColdProbe: true, NoEviction: noEviction}
+
+			for k := 1; k <= 2; k++ {
+				job.Services = append(job.Services, genService(sr, k, svcOpts{ForceDynStruct: true, AvoidNamedPointer: so.AvoidNamedPointer, AvoidAutoImport: so.AvoidAutoImport}))
+			}
+
+			shards = append(shards, &shard{job: job})
+
+			r.Probe("probe:dynamic-struct-cold-burst")
+		}
+
 		// always-run directed probe: services that rely on auto-imported packages, cache limit 1, three services
 		{
 			sr := vh.Rand("c42-probe-autoimport/services")
@@ -759,7 +831,7 @@ func TestC42(t *testing.T) {
 				case last > lastDone:
 					mu.Lock()
 					if wr.Fatal != "" {
-						fatals = append(fatals, c42Fatal{Job: c42Job{Services: s.job.Services, Stream: s.job.Stream, NoEviction: s.job.NoEviction, EvictionProbe: s.job.EvictionProbe}, Batch: last, Text: wr.Fatal})
+						fatals = append(fatals, c42Fatal{Job: c42Job{Services: s.job.Services, Stream: s.job.Stream, NoEviction: s.job.NoEviction, EvictionProbe: s.job.EvictionProbe, ColdProbe: s.job.ColdProbe}, Batch: last, Text: wr.Fatal})
 					} else {
 						inconcl = append(inconcl, fmt.Sprintf("worker %s ended (exit %d, timeout=%t) inside batch %d; log tail: %s", tag, wr.ExitCode, wr.Timeout, last, vh.Trunc(tailOf(wr.LogTail, 2500), 2600)))
 					}
@@ -815,8 +887,12 @@ func TestC42(t *testing.T) {
 			r.Count(fmt.Sprintf("density:%d", rc.Density), 1)
 			r.Count(fmt.Sprintf("optimizer_level:%d", rc.Opt), 1)
 
-			if rc.Flushed {
+			if rc.Flushed && !rc.Cold {
 				r.Count("cache.flushed_before_concurrent_pass", 1)
+			}
+
+			if rc.Cold {
+				r.Count("batches.cold_concurrent_burst_first", 1)
 			}
 
 			if rc.CacheMax < len(rc.Services) {
@@ -827,7 +903,7 @@ func TestC42(t *testing.T) {
 				patterns[fmt.Sprintf("%d/%d", rc.Density, rc.Seed)] = true
 			}
 
-			witness := map[string]any{"job": c42Job{Services: s.job.Services, Stream: s.job.Stream, NoEviction: s.job.NoEviction, EvictionProbe: s.job.EvictionProbe}, "batch": rc.Batch, "gomaxprocs": gmp, "verif_seed": vh.Seed(),
+			witness := map[string]any{"job": c42Job{Services: s.job.Services, Stream: s.job.Stream, NoEviction: s.job.NoEviction, EvictionProbe: s.job.EvictionProbe, ColdProbe: s.job.ColdProbe}, "batch": rc.Batch, "gomaxprocs": gmp, "verif_seed": vh.Seed(),
 				"cache_max": rc.CacheMax, "flushed": rc.Flushed, "density": rc.Density, "seed": rc.Seed}
 
 			if rc.Unstable > 0 {
@@ -962,6 +1038,23 @@ func mismatchKind(m c42Mismatch) string {
 	}
 
 	sort.Strings(diff)
+
+	if len(diff) == 0 && len(m.Foreign) > 0 && m.Concurrent.Hdr == m.Serial.Hdr {
+		// both answers agree and both carry another request's value: name the fields that hold it
+		for k, v := range b {
+			for _, tg := range m.Foreign {
+				if strings.Contains(v, tg) {
+					diff = append(diff, k)
+
+					break
+				}
+			}
+		}
+
+		sort.Strings(diff)
+
+		return "foreign-value-in:" + strings.Join(diff, "+")
+	}
 
 	switch {
 	case len(diff) == 0 && m.Concurrent.Hdr != m.Serial.Hdr:
